@@ -607,7 +607,11 @@ func (p *Proxy) handle(ctx *Context, conn net.Conn, brw *bufio.ReadWriter) error
 		}
 	}
 
-	err = res.Write(brw)
+	if chunked := len(res.TransferEncoding) > 0 && res.TransferEncoding[0] == "chunked"; chunked && req.Method == "HEAD" {
+		err = writeChunkedHeadResponse(brw, res)
+	} else {
+		err = res.Write(brw)
+	}
 	if err != nil {
 		log.Errorf("martian: got error while writing response back to client: %v", err)
 		// Whatever failed (the origin going away in the middle of the body, the client going
@@ -622,6 +626,23 @@ func (p *Proxy) handle(ctx *Context, conn net.Conn, brw *bufio.ReadWriter) error
 		closing = errClose
 	}
 	return closing
+}
+
+// writeChunkedHeadResponse writes the response to a HEAD request whose headers announce a
+// chunked body. net/http's Response.Write sends no body for it but still ends the message with
+// the CRLF that closes the (absent) chunked body, and that stray CRLF would sit in front of the
+// next response on a kept-alive connection.
+func writeChunkedHeadResponse(w io.Writer, res *http.Response) error {
+	var buf bytes.Buffer
+	if err := res.Write(&buf); err != nil {
+		return err
+	}
+	b := buf.Bytes()
+	if bytes.HasSuffix(b, []byte("\r\n\r\n\r\n")) {
+		b = b[:len(b)-2]
+	}
+	_, err := w.Write(b)
+	return err
 }
 
 // A peekedConn subverts the net.Conn.Read implementation, primarily so that
